@@ -6,6 +6,7 @@ package fetch
 import (
 	"bytes"
 	"encoding/hex"
+	"errors"
 	"fmt"
 	"regexp"
 	"sort"
@@ -250,7 +251,11 @@ func saveFetchedRefs(
 	savedRefs := []*conf.Refspec{}
 	remoteDisplayed := false
 	for _, r := range refs {
-		oldSum, _ := ref.GetRef(rs, r.Dst())
+		oldSum, err := ref.GetRef(rs, r.Dst())
+		if err != nil && !errors.Is(err, ref.ErrKeyNotFound) {
+			// the ref may exist: saving it as new would bypass the fast-forward and tag checks
+			return nil, fmt.Errorf("error reading ref %q: %w", r.Dst(), err)
+		}
 		sum := dstRefs[r.Dst()]
 		if bytes.Equal(oldSum, sum) {
 			continue
